@@ -532,6 +532,21 @@ func (h *NetH) SetRules(i int, rules []string) bool {
 	return err == nil
 }
 
+// SetRulesDiscarded: the routing keeper's SetRoutingRules succeeds on a branch of chain i's state
+// that is then thrown away (what x/gov does when a later message of a passed proposal fails, what
+// BaseApp does for a transaction whose later message fails).  For the model this is no operation.
+func (h *NetH) SetRulesDiscarded(i int, rules []string) bool {
+	h.begin(i)
+	ci := h.chains[i]
+	h.coord.UpdateTimeForChain(ci)
+	now := h.now()
+	ctx, _ := ci.GetContext().CacheContext()
+	err := ci.App.TIBCKeeper.RoutingKeeper.SetRoutingRules(ctx, rules)
+	h.commit(i)
+	h.record(fmt.Sprintf("NChain %d %d (OTick 0)", i, now), i, StepDesc{Op: "setrules-discarded", Rules: rules}, true, nil)
+	return err == nil
+}
+
 func (h *NetH) CaseTerm() string {
 	ns := make([]string, len(h.names))
 	for i, n := range h.names {
